@@ -660,6 +660,19 @@ func (fr *Frame) mapUpdate(st *State, x *ssa.MapUpdate) {
 // compRangeIter holds, per range-over-map statement, the number of keys yielded so far.
 const compRangeIter = "RC_iter"
 
+// rangeSeenComp names the component that holds, per range-over-map statement, the set of keys
+// yielded so far (ghost; "$seen[k]" in loop invariants).
+func (fc *FnCtx) rangeSeenComp(mt *types.Map) (string, string) {
+	ks := fc.sortOf(mt.Key())
+	name := "RC_seen_" + identOf(ks)
+	fc.registerComp(name, arraySort(SPtr, arraySort(ks, SBool)))
+	return name, ks
+}
+
+func isRangeMarkerComp(c string) bool {
+	return c == compRangeIter || strings.HasPrefix(c, "RC_seen_")
+}
+
 func rangeIterKey(x *ssa.Range) Term {
 	return mk(fmt.Sprintf("(PObj (- %d))", 1000+x.Block().Index*1000+instrIndex(x)), SPtr, nil)
 }
@@ -681,6 +694,9 @@ func (fr *Frame) rangeInstr(st *State, x *ssa.Range) {
 		fc.registerComp(compRangeIter, arraySort(SPtr, SInt))
 		cur := fc.comp(st, compRangeIter)
 		fc.setComp(st, compRangeIter, tStore(cur, rangeIterKey(x), tInt(0)))
+		mt := x.X.Type().Underlying().(*types.Map)
+		sc, ks := fc.rangeSeenComp(mt)
+		fc.setComp(st, sc, tStore(fc.comp(st, sc), rangeIterKey(x), mk(fmt.Sprintf("((as const %s) false)", arraySort(ks, SBool)), arraySort(ks, SBool), nil)))
 	}
 }
 
@@ -732,13 +748,23 @@ func (fr *Frame) nextInstr(st *State, x *ssa.Next) {
 			fc.registerComp(compRangeIter, arraySort(SPtr, SInt))
 			rk := rangeIterKey(r)
 			cnt := fc.define("rcnt", tSel(fc.comp(st, compRangeIter), rk, SInt, types.Typ[types.Int]))
+			sc, ks := fc.rangeSeenComp(mt)
+			seen := fc.define("rseen", tSel(fc.comp(st, sc), rk, arraySort(ks, SBool), nil))
 			if fr.mapUnchangedInLoop(x, mt) {
+				// distinct keys, and all of them: a yielded key was not seen before; when the
+				// iteration ends every key of the map has been seen
+				fc.assume(st, tImp(ok, mk(fmt.Sprintf("(not (select %s %s))", seen.S, k.S), SBool, nil)))
+				fc.n++
+				q := fmt.Sprintf("k!q%d", fc.n)
+				fc.assume(st, tImp(tNot(ok), mk(fmt.Sprintf("(forall ((%s %s)) (! (=> (select (select %s %s) %s) (select %s %s)) :pattern ((select %s %s))))",
+					q, ks, fc.comp(st, dom).S, m.S, q, seen.S, q, seen.S, q), SBool, nil)))
 				fc.assume(st, mk(fmt.Sprintf("(= %s (< %s (select %s %s)))", ok.S, cnt.S, fc.comp(st, "MN_"+mapID(mt)).S, m.S), SBool, nil))
 				fc.note("map iteration: arbitrary order, each step yields a present key; the body runs len(map) times (the loop does not modify maps of this type); distinctness of the yielded keys is not modelled")
 			} else {
 				fc.note("map iteration yields an arbitrary present key each step (order and exhaustiveness are not modelled)")
 			}
 			fc.setComp(st, compRangeIter, tStore(fc.comp(st, compRangeIter), rk, mk(fmt.Sprintf("(ite %s (+ %s 1) %s)", ok.S, cnt.S, cnt.S), SInt, nil)))
+			fc.setComp(st, sc, tStore(fc.comp(st, sc), rk, mk(fmt.Sprintf("(ite %s (store %s %s true) %s)", ok.S, seen.S, k.S, seen.S), arraySort(ks, SBool), nil)))
 		}
 	}
 	fr.tuples[x] = []Term{ok, k, v}
